@@ -6,7 +6,7 @@ import numpy
 import scipy.sparse
 from scipy.spatial.distance import cdist
 from sklearn.metrics.pairwise import euclidean_distances
-from sklearn.utils import check_random_state
+from sklearn.utils import check_array, check_random_state
 from sklearn.utils.extmath import row_norms
 from ._kmeans_022 import _centers_dense, _centers_sparse, _labels_inertia_skl
 
@@ -219,6 +219,8 @@ def constraint_predictions(X, centers, strategy, state=None):
     """
     if isinstance(X, DataFrame):
         X = X.values
+    # distances are stored in the dtype of X
+    X = check_array(X, accept_sparse="csr", dtype=[numpy.float64, numpy.float32])
     x_squared_norms = row_norms(X, squared=True)
     counters = numpy.empty((centers.shape[0],), dtype=numpy.int32)
     limit = X.shape[0] // centers.shape[0]
